@@ -180,11 +180,12 @@ func runConcurrent(g *gen, workers, perWorker, loops int, emit emitFn) (evals in
 			} else {
 				c.sig = *groupsig.DeserializeSign(c.sigb)
 			}
-			c.want = !c.forged
+			// the SEQUENTIAL answer of the code itself is the reference of this phase
+			c.want = groupsig.VerifySig(groupsig.ByteToPublicKey(c.pkb), msg, *groupsig.DeserializeSign(c.sig.Serialize()))
 			c.g1 = refG1(msg)
 			c.g2 = new(bn.G2).ScalarBaseMult(sk)
 			c.pair = bn.Pair(c.g1, c.g2).Marshal()
-			c.hm = c.g1.Marshal()
+			c.hm = hashG1(msg).Marshal()
 			cases[w] = append(cases[w], c)
 		}
 	}
@@ -225,7 +226,7 @@ func runConcurrent(g *gen, workers, perWorker, loops int, emit emitFn) (evals in
 					if p != hx.Hex(c.pair) {
 						note("concurrent-result-differs:Pair", viol{"concurrent-result-differs:Pair",
 							fmt.Sprintf("Pair(a,b) under %d concurrent goroutines differs from its sequential value: not a function of its inputs", workers),
-							map[string]string{"a": hx.Hex(c.hm), "b": hx.Hex(c.g2.Marshal()), "schedule": seq}})
+							map[string]string{"a": hx.Hex(c.g1.Marshal()), "b": hx.Hex(c.g2.Marshal()), "schedule": seq}})
 					}
 					sg := hx.Guard(func() string { s := groupsig.Sign(c.sk, c.msg); return hx.Hex(s.Serialize()) })
 					if sg != hx.Hex(c.sigb) {
